@@ -776,6 +776,7 @@ def check_no_vertex_sentinel(rep, prog, fn):
 
 
 def run(rep, tier):
+    rep.rule('R07u', 'no front() / *max_element over a table that is empty for the graph without vertices', floor=0)
     rep.rule('R13h', 'degrees and counts are stored as wide as the graph reports them', floor=1)
     rep.rule('R13i', 'no value-initialised vertex descriptor serves as a "no vertex" marker', floor=0)
     rep.rule('R05f', 'the output iterator is not reused after being passed by value to a helper that writes through it', floor=0)
@@ -803,6 +804,7 @@ def run(rep, tier):
             check_count_width(rep, prog, fn)
             check_no_vertex_sentinel(rep, prog, fn)
         c07.r07g(rep, prog, only_files=('fvs.hpp',))
+        c07.r07u(rep, prog, only_files=('fvs.hpp',))
     if n == 0:
         rep.analysis_broken('parmcb::greedy_fvs is not instantiated (anchor vanished)')
     pos7 = os.path.join(env.WITNESS, 'positive', 'c07_shapes.cc')
